@@ -174,13 +174,13 @@ theorem lastAck_shift {pos : Nat} (hp : pos < 256) :
         unfold wrapSub at h2 ⊢; omega
 
 /-- the accounting is tight: the youngest acknowledgement in flight covers everything `Y` had
-received when it was sent (`d = ack_level`); with no acknowledgement in flight, `X` counts at most
-one segment more than `Y` has received and not acknowledged (the handshake response, which the
-initiator acknowledges only together with the first data segment) -/
+received when it was sent (`d = ack_level`); with no acknowledgement in flight, `X` counts exactly
+what `Y` has received and not acknowledged (`hi = lo`; the handshake response is counted by the
+initiator as a received, unacknowledged segment - before that fix there was a slack of one) -/
 def Tight (pos hi lo : Nat) (aq : List (List Nat)) : Prop :=
   match lastAck pos aq with
   | some d => d = lo
-  | none => hi ≤ lo + 1
+  | none => hi = lo
 
 /-! ## What a well-behaved sender emits -/
 
